@@ -220,7 +220,7 @@ func RunLockstep(c *Case, pick func(n int) int, hk *Hooks) *Outcome {
 			kindOf[n.ID] = k
 		}
 	})
-	wrongType := ""
+	wrongType, wrongCtx := "", ""
 	takeNew := func() []string {
 		var ids []string
 		for _, tt := range in.NewTasks() {
@@ -233,6 +233,12 @@ func RunLockstep(c *Case, pick func(n int) int, hk *Hooks) *Outcome {
 				if got := string(tt.GetActivity().Type()); !strings.EqualFold(got, k) {
 					wrongType = fmt.Sprintf("request for <%s id=%q> carries activity type %q", k, id, got)
 				}
+			}
+			// ... and is made in the context the instance was started with
+			// (its values, deadline, cancellation), at process level and inside
+			// sub-processes alike
+			if wrongCtx == "" && !CarriesRun(tt) {
+				wrongCtx = fmt.Sprintf("the request for %q carries a context that does not descend from the context given to StartAll", id)
 			}
 		}
 		sort.Strings(ids)
@@ -362,6 +368,9 @@ func RunLockstep(c *Case, pick func(n int) int, hk *Hooks) *Outcome {
 	// ---- end state ------------------------------------------------------------
 	if wrongType != "" {
 		return fail("activity-type", wrongType, nil)
+	}
+	if wrongCtx != "" {
+		return fail("task-context", wrongCtx, nil)
 	}
 	out.Done, out.Stuck = m.Done(), m.StuckBySpec()
 	wctx, wcancel := context.WithCancel(context.Background())
